@@ -24,6 +24,7 @@ ID1, ID2 = "11" * 32, "22" * 32
 PK = "ab" * 32
 SIG = "cd" * 64
 VALID_EVENT = {"id": ID1, "pubkey": PK, "created_at": 1700000000, "kind": 1, "tags": [["e", "x"]], "content": "hi", "sig": SIG}
+STORED_K2 = [Event(id="33" * 32, pubkey=PK, created_at=1500000000, kind=2, tags=[], content="k2", sig=SIG)]
 STORED = [Event(id=ID2, pubkey=PK, created_at=1600000000 + i, kind=1, tags=[], content="s%d" % i, sig=SIG) for i in range(3)]
 
 
@@ -38,8 +39,14 @@ class StubSub(B.BaseSubscription):
     n_stored = 0
 
     async def run_query(self):
-        for i in range(StubSub.n_stored):
-            await self.queue.put((self.sub_id, STORED[i]))
+        n = 0
+        for ev in STORED + STORED_K2:
+            if n >= StubSub.n_stored:
+                break
+            kinds = [k for f in self.filters for k in (f.kinds or [1])]
+            if ev.kind in kinds:
+                await self.queue.put((self.sub_id, ev))
+                n += 1
         await self.queue.put((self.sub_id, None))
 
 
@@ -184,7 +191,16 @@ def install(loop, tokens=None):
         import nostr_relay.util as U
         script = list(tokens)
         U.secrets = types.SimpleNamespace(token_hex=lambda n=2: script.pop(0) if script else "ffff")
-        web.ClientID = U.ClientID
+
+        class RealClientID(U.ClientID):
+            """the real class (its __init__, __eq__, __str__); only hash() of the id text is computed without the
+            hash builtin, which CrossHair may turn into a symbolic int"""
+            __slots__ = ()
+
+            def __hash__(self):
+                return sum(ord(c) for c in self._idstr)
+
+        web.ClientID = RealClientID
     web.json_loads = lambda tok: tok[0].messages[tok[1]]
     web.time = lambda: 0
     # Event() substitutes time.time() for a missing created_at: CrossHair's nondeterministic clock would be realised
